@@ -22,7 +22,8 @@ RULE = ('byte streams made of 1..7 request lines drawn from a grammar of SECoP r
         'scripted recv() segments (random cut points, recv time-outs; exhaustive segmentations of short streams), with other '
         'connections talking to the same dispatcher between two segments; plus direct encode_msg_frame / decode_msg cases. '
         'A stream case is non-trivial when at least one complete line was answered; distinct = distinct (segments, other '
-        'connections) resp. distinct codec inputs')
+        'connections) resp. distinct codec inputs; a few threaded runs in which a second thread sends events through '
+        'send_reply while the fake socket delivers every frame in two halves')
 ASSUMPTIONS = [
     'json.loads / json.dumps / str(exception) are CPython or message text: supplied to the model as recorded data (json verdict per data string, reply data text, error text)',
     'the bodies of Dispatcher.handle_<x> are oracles (reply data, messages sent, exception class); their reply action and specifier rule are read off the source by the translator',
@@ -386,6 +387,8 @@ def run_case(case):
     kind = case['kind']
     if kind == 'stream':
         return run_stream_case(case)
+    if kind == 'threads':
+        return run_threads_case(case)
     env = _setup()
     iface = env['iface']
     if kind == 'encode':
@@ -415,6 +418,69 @@ def run_case(case):
         finally:
             iface.json = saved
     raise ValueError(kind)
+
+
+def run_threads_case(case):
+    """a second thread sends events through send_reply of the connection while its own thread answers requests; the fake
+    socket delivers every frame in two halves with a pause in between, and records the resulting byte stream"""
+    import threading
+    import time
+    env = _setup()
+    tcp = env['tcp']
+    srv = env['mknode']()
+    stream = bytearray()
+    script = [unhx(c) for c in case['chunks']]
+    pause = case.get('pause', 0.0003)
+
+    class TSock:
+        def settimeout(self, t):
+            pass
+
+        def recv(self, n):
+            return script.pop(0) if script else b''
+
+        def sendall(self, b):
+            k = len(b) // 2
+            stream.extend(b[:k])
+            time.sleep(pause)
+            stream.extend(b[k:])
+
+        def shutdown(self, *a):
+            pass
+
+        def close(self):
+            pass
+
+    stop = threading.Event()
+    count = [0]
+    problems = []
+
+    def other():
+        while not srv.dispatcher._connections and not stop.is_set():
+            time.sleep(0.0001)
+        while not stop.is_set():
+            conns = list(srv.dispatcher._connections)
+            if not conns:
+                break
+            try:
+                conns[0].send_reply(('update', 'm:value', [count[0], {}]))
+                count[0] += 1
+            except Exception as e:
+                problems.append(type(e).__name__)
+                break
+            time.sleep(pause / 2)
+    t = threading.Thread(target=other)
+    raised = None
+    t.start()
+    try:
+        with contextlib.redirect_stdout(io.StringIO()):
+            tcp.TCPRequestHandler(TSock(), ('10.0.0.3', 7), srv)
+    except BaseException as e:
+        raised = type(e).__name__
+    finally:
+        stop.set()
+        t.join()
+    return {'stream': hx(bytes(stream)), 'n_async': count[0], 'problems': problems, 'raised': raised}
 
 
 def stream_bytes(case):
@@ -561,6 +627,38 @@ def oracle(case, obs):
                 fail('wellformed', f'encoded frame: {why}')
         return fails
     if case['kind'] == 'decode':
+        return fails
+    if case['kind'] == 'threads':
+        if obs['raised'] or obs['problems']:
+            fail('terminated', f'threads: {obs["raised"]} {obs["problems"]}')
+        data = unhx(obs['stream'])
+        parts = data.split(b'\n')
+        if parts[-1] != b'':
+            fail('split-line', f'stream does not end with a complete line: {parts[-1][:60]!r}')
+        nreq = len(complete_lines(b''.join(unhx(c) for c in case['chunks'])))
+        replies, nxt = 0, 0
+        for ln in parts[:-1]:
+            p, why = parse_frame(ln + b'\n')
+            if p is None:
+                fail('split-line', f'line {ln[:80]!r} of the byte stream: {why}')
+                break
+            if p[0] == 'update':
+                if p[1] != 'm:value' or not isinstance(p[2], list) or p[2][0] != nxt:
+                    fail('split-line', f'event line {ln[:80]!r} is not the next event sent ({nxt})')
+                    break
+                nxt += 1
+            elif p[0] == '_':
+                if not (isinstance(p[2], str) and (p[1] or '').isdigit()):
+                    fail('split-line', f'damaged help text line {ln[:80]!r}')
+                    break
+            elif p[0] in ('helping', 'pong'):
+                replies += 1
+            else:
+                fail('split-line', f'unexpected line {ln[:80]!r}')
+                break
+        else:
+            if replies != nreq or nxt != obs['n_async']:
+                fail('split-line', f'{replies} replies for {nreq} requests, {nxt} of {obs["n_async"]} events arrived')
         return fails
 
     # ---- stream cases
@@ -736,6 +834,8 @@ def g_hres(ln):
 
 def encode(case, obs):
     k = case['kind']
+    if k == 'threads':      # the interleaving is not an input of the model: compare the event frame only
+        return f'(CEncode ({g_str("update")}, {g_ostr("m:value")}, {g_ostr("[0, {}]")}) {g_bytes(b"update m:value [0, {}]" + bytes([10]))})'
     if k == 'encode':
         if 'exc' in obs:
             raise ValueError('encode_msg_frame raised ' + obs['exc'])
@@ -770,6 +870,8 @@ def nontrivial_key(case, obs):
 
 
 def outcome_labels(case, obs):
+    if case['kind'] == 'threads':
+        return ['threads']
     if case['kind'] != 'stream':
         return [case['kind'] + ('-exc' if obs.get('exc') else '')]
     labs = set()
@@ -975,6 +1077,9 @@ def gen_cases(seed, tier):
     n_codec = {'quick': 1400, 'thorough': 10000, 'search': 5000}[tier]
     cases = [stream_case(rng) for _ in range(n_stream)]
     cases.extend(codec_cases(rng, n_codec))
+    for k in range({'quick': 12}.get(tier, 60)):
+        cases.append({'kind': 'threads', 'chunks': [hx(b'help\nping a\n'), hx(b'\nping b\nhelp\n')][:1 + k % 2],
+                      'pause': [0.0003, 0.001, 0.0001][k % 3], 'n': k})
     # exhaustive segmentations of short streams
     limit = 9 if tier == 'quick' else 12
     for s in SHORT_STREAMS:
